@@ -78,6 +78,12 @@ class IsUniqueOracle(Oracle):
         for r1 in itertools.product(tricky, repeat=2):
             for r2 in itertools.product(tricky, repeat=2):
                 yield (2, [list(r1), list(r2)])
+        # whatever text could be used to glue the cells of a key together: moving it from the end of one cell to the start of the next is another key
+        for sep in ["\t", " ", ",", ";", ":", "|", "/", "-", "_", ".", "\0", "\x1f", "\x1e", "\n", "', '", "\\", '"', "'", "\u2028", "\ufffe", "\U0010ffff"]:
+            yield (2, [["a" + sep, "b"], ["a", sep + "b"]])
+            yield (2, [["a" + sep + "a", "a"], ["a", "a" + sep + "a"]])
+            yield (2, [[sep, ""], ["", sep]])
+            yield (2, [["a" + sep + "b", "c"], ["a", "b" + sep + "c"], ["a" + sep + "b", "c"]])
     def check(self, c):
         from cutplace import checks, errors
         nkeys, rows = c
